@@ -194,6 +194,11 @@ def run_chunk(chunk):
             for n in range(width + 1):
                 _do(res, [[f, TEXT_CHARS[width:width + n]]])
                 _do(res, [[f, (TEXT_CHARS * 2)[n:n + n]]])
+        # blanks are printable text: at the start, at the end, alone, inside
+        for f, width in TEXT_FIELDS + [(['sec', 0, 'sym'], 16), (['sec', 2, 'name'], 12)]:
+            for v in (' lead', 'trail ', ' ', '  both  ', 'in side', ' x'[:width], ('end' + ' ' * width)[:width], (' ' * width)):
+                if len(v) <= width:
+                    _do(res, [[f, v]])
         for n in range(0, 81, 4):
             _do(res, [[['sec', 0, 'sym'], (TEXT_CHARS * 2)[:n]]])
             for short in (1, 2, 3):
